@@ -1,6 +1,8 @@
 """Concretisation (abstract case -> library objects) and projection (library objects -> abstract values)."""
 import numpy as np
 
+SRC = "cell-7.swc"      # every tree the executors build names a source file: results must not be keyed by it (several trees share it)
+
 
 def vid(c):
     """variant selector of a case: its number in the run that produced it (kept when the case is replayed)"""
@@ -21,7 +23,7 @@ def mk_tree(P, attr=None, xs=None, extra=None, unit=1.0, offset=(0.0, 0.0, 0.0))
     kw["x"] = np.array([x * unit + offset[0] for x in xs], dtype=np.float32)
     if extra:
         kw.update(extra)
-    return Tree(n, id=np.arange(n, dtype=np.int32), pid=np.array(P, dtype=np.int32), **kw)
+    return Tree(n, source=SRC, id=np.arange(n, dtype=np.int32), pid=np.array(P, dtype=np.int32), **kw)
 
 
 def snapshot(t):
@@ -85,7 +87,7 @@ def mk_tree_len(P, el, attr=None):
     n = len(P)
     attr = attr or default_attr(n)
     pos = place_by_edge_len(P, el)
-    return Tree(n, id=np.arange(n, dtype=np.int32), pid=np.array(P, dtype=np.int32),
+    return Tree(n, source=SRC, id=np.arange(n, dtype=np.int32), pid=np.array(P, dtype=np.int32),
                 type=np.array([a[0] for a in attr], dtype=np.int32),
                 x=np.array([p[0] for p in pos], dtype=np.float32), y=np.array([p[1] for p in pos], dtype=np.float32),
                 z=np.array([p[2] for p in pos], dtype=np.float32), r=np.array([a[3] for a in attr], dtype=np.float32),
